@@ -6,6 +6,7 @@ mod jr;
 mod json;
 mod model;
 mod props;
+mod worker;
 
 use crate::core::{Run, Tier};
 
@@ -14,6 +15,11 @@ fn main() {
 	if args.len() < 2 {
 		eprintln!("usage: jv run <ID> [quick|thorough] | jv replay <file> | jv eval <code>");
 		std::process::exit(2);
+	}
+	if args[1] == "worker" {
+		// an isolated worker serves its requests on a thread with the stack size of the executable's main thread
+		let h = std::thread::Builder::new().stack_size(worker::STACK_BYTES).spawn(worker::serve).unwrap();
+		std::process::exit(h.join().unwrap_or(3));
 	}
 	// all real work happens on a big-stack thread
 	let h = std::thread::Builder::new()
